@@ -33,4 +33,16 @@ CHECKS["C06"] = {
     "text": "Four program templates (child/parent/main hierarchies built from start/await/activate/when/groups holding actions; siblings sharing an identical action; several activators incl. nested activation and immediately-finishing activated flows; when/await-group scopes) with every slot combination, explored over all histories of {4 events, Finished of pending actions, StopFlow of the parent} to depth 4-5 (quick) / 6-7 (thorough) with all tie-breaks; monitors: no running flow below a finished/failed ancestor, Stop only for started+unfinished+unstopped actions and never while another running flow holds the action (unless its scope closed), unfinished unheld actions got exactly one Stop, activated flow has exactly one running instance iff an activator runs, immediately-finishing activated flow runs once.",
     "note": _E1_NOTE + " Activators are known statically because generated programs put `activate` first in a flow.",
 }
+CHECKS["C04"] = {
+    "engine": "E4-enumerators + E1-v2x", "level": "exploration",
+    "technique": "exhaustive enumeration of all (pattern, payload) pairs of a bounded value grammar against a reference matcher, at function level and through parser + interpreter (run_to_completion)",
+    "text": "Every pair of the bounded grammar (scalars, regex leaves, lists/sets/dicts of width <=2, depth 1 quick / depth 2 thorough) is scored by the real matcher (with and without an unmentioned parameter) and compared with a recursive reference matcher written from the statement; every depth<=1 pattern is also compiled into `match E(p=<literal>)` and fed every payload, derived payloads (add/drop/reorder/alter), extra parameters and a wrong event name through run_to_completion; action and flow instance references are checked against events of the other instance / foreign uids.",
+    "note": "Trusted: the reference matcher (40 lines, vf/props/c04.py ref_match). Cross-type numeric comparisons (1 vs True vs 1.0) and containers wider than 2 / deeper than the bound are not covered.",
+}
+CHECKS["C08"] = {
+    "engine": "E1-v2x (single traces)", "level": "exploration",
+    "technique": "exhaustive enumeration of signatures x call shapes x argument values x call forms, each program executed on the real parser + interpreter, oracle = Python-like binder",
+    "text": "All signatures with <=2 (quick) / <=3 (thorough) parameters and every default mask, every call shape (given subset, positional prefix, named order), values from 8 types incl. None, containers and a caller variable (full product for <=2 arguments), five call forms (assign-await, await, implicit, start+match Finished, activate); the callee echoes its parameters, returns a value, assigns locals that shadow caller/sibling variables.",
+    "note": "Trusted: the binder oracle. Calls omitting a parameter without default, surplus arguments and flows ending without `return` are outside the statement.",
+}
 NOT_APPLICABLE = {}
